@@ -99,6 +99,17 @@ def round32(j):
     return core.enc(np.float32(float(v)))
 
 
+def arrays_close(a, b, tol: float) -> bool:
+    """same shape, NaN exactly at the same places, other cells within tol"""
+    a, b = np.asarray(a, dtype=np.float64), np.asarray(b, dtype=np.float64)
+    if a.shape != b.shape:
+        return False
+    na, nb = np.isnan(a), np.isnan(b)
+    if (na != nb).any():
+        return False
+    return bool(np.all(np.abs(np.where(na, 0, a) - np.where(nb, 0, b)) <= tol))
+
+
 def key_of(case) -> str:
     return hashlib.sha1(json.dumps(case, sort_keys=True, default=str).encode()).hexdigest()[:16]
 
@@ -431,7 +442,7 @@ def check_std(ctx, report, case):
     tol = 1e-5 * max(1.0, float(np.nanmax(np.abs(sel)))) if sel.size else 1e-5
 
     def close(a, b):
-        return a.shape == b.shape and bool(np.all((np.isnan(a) & np.isnan(b)) | (np.abs(np.where(np.isnan(a), 0, a) - np.where(np.isnan(b), 0, b)) <= tol)))
+        return arrays_close(a, b, tol)
 
     if not close(np.asarray(impl), model_std):
         report.disagree("std_intensity", case, enc_grid(impl), r["model_var"])
@@ -695,8 +706,7 @@ def check_pipeline_bands(ctx, report, case, side, steps, cv1, d1, img, mc):
             r = ctx.lean.call("C12.std", img=enc_grid(np.asarray(img, dtype=np.float64)), window=w)
             spec_std = np.sqrt(dec_array(r["spec_var"]))
             tol = 1e-5 * max(1.0, float(np.max(np.abs(img))))
-            ok = b.shape == spec_std.shape and bool(np.all((np.isnan(b) & np.isnan(spec_std)) |
-                                                           (np.abs(np.nan_to_num(b) - np.nan_to_num(spec_std)) <= tol)))
+            ok = arrays_close(b, spec_std, tol)
             report.hit("std_def")
             if not ok:
                 report.fail("std_def", "pipeline_" + side, sub, enc_grid(b))
@@ -776,10 +786,18 @@ def gen_pipeline_case(rng):
 # dispatch, run, search, replay
 # ------------------------------------------------------------------------------------------------
 CHECKS = {"kernels": check_kernels, "regul": check_regul, "std": check_std, "allocate": check_allocate, "pipeline": check_pipeline}
+# the clause a crash of the real code is charged to, per stream
+CRASH_CLAUSE = {"kernels": "bands_appended_named", "regul": "quantile1_widens", "std": "std_def",
+                "allocate": "bands_appended_named", "pipeline": "bands_appended_named"}
 
 
 def check_case(ctx, report, case):
-    CHECKS[case["kind"]](ctx, report, case)
+    try:
+        CHECKS[case["kind"]](ctx, report, case)
+    except cf.ImplRaised as exc:
+        # the implementation raised on an input of the property's domain: no band was appended
+        report.case(key=key_of(case), nontrivial=True)
+        report.fail(CRASH_CLAUSE[case["kind"]], f"raises_{exc.kind}_in_{exc.where}", case, None, str(exc)[:500])
 
 
 def translator_cross_check(report, status):
